@@ -37,6 +37,17 @@ MapsOnto(A, s1, s2, tol) ==
        /\ Len(s1.segs[i]) = Len(s2.segs[i])
        /\ \A k \in 1..Len(Vecs(s1.segs[i])) : CloseVec(A, Vecs(s1.segs[i])[k], Vecs(s2.segs[i])[k], tol)
 
+(* arc radii are not coordinates; under a map with unit determinant and orthogonal columns (rotation, *)
+(* mirror, translation) a circular arc keeps its radius                                               *)
+Isometry(A) == /\ Abs(A[1] * A[4] - A[2] * A[3]) >= SA * SA - SA * 20 /\ Abs(A[1] * A[4] - A[2] * A[3]) <= SA * SA + SA * 20
+               /\ Abs(A[1] * A[3] + A[2] * A[4]) <= SA * 20
+               /\ Abs(A[1] * A[1] + A[2] * A[2] - SA * SA) <= SA * 40
+RadiiAgree(A, s1, s2, tol) ==
+  ~Isometry(A) \/ (Len(s1.radii) = Len(s2.radii) /\
+     \A k \in 1..Len(s1.radii) : s1.radii[k][1] # s1.radii[k][2]
+                                  \/ (Abs(s1.radii[k][1] - s2.radii[k][1]) <= tol + 2
+                                      /\ Abs(s1.radii[k][2] - s2.radii[k][2]) <= tol + 2))
+
 IsIdentity(A) == A = <<SA, 0, 0, SA, 0, 0>>
 
 Judge(c) ==
@@ -45,6 +56,7 @@ Judge(c) ==
        THEN (IF c.expect = "found" THEN "BAD:exact-translation-not-found"
              ELSE IF c.expect = "identity" THEN "BAD:identical-shapes-not-matched" ELSE "ok:none")
   ELSE IF ~MapsOnto(c.A, c.s1, c.s2, c.tol) THEN "BAD:reported-transform-does-not-map-s1-onto-s2"
+  ELSE IF ~RadiiAgree(c.A, c.s1, c.s2, c.tol) THEN "BAD:reported-transform-changes-arc-radii"
   ELSE IF c.expect = "identity" /\ ~IsIdentity(c.A) THEN "BAD:identical-shapes-not-identity"
   ELSE "ok:sound"
 
